@@ -1,7 +1,7 @@
 (* Dispatcher for the filesystem-level models. *)
 From Coq Require Import List NArith ZArith Bool Arith String.
 From PyFS Require Import Base.PyStr Base.Outcome Base.Render FS.Tree FS.Monad FS.Mode FS.Base
-     FS.Mem FS.Ops FS.Ref FS.Agree.
+     FS.Mem FS.Ops FS.Ref FS.Agree FS.Props.
 Import ListNotations.
 Local Open Scope string_scope. Local Open Scope list_scope.
 
@@ -14,9 +14,49 @@ Fixpoint agree_history (s : node) (ops : list op) : list str :=
     r_bool (agree obs (ref_run o s)) :: agree_history (fst obs) r
   end.
 
+(* per step of the MemoryFS model: the C05 predicate *)
+Fixpoint preserved_history (s : node) (ops : list op) : list str :=
+  match ops with
+  | [] => []
+  | o :: r =>
+    let obs := mem_run o s in
+    r_bool (negb (is_transfer o) || preserved s (fst obs) o (is_ok (snd obs)))
+      :: preserved_history (fst obs) r
+  end.
+
+(* predicates applied to observations supplied by the harness:
+   <tree before> <tree after> <ok flag> <one call> *)
+Definition with_obs (args : list str) (k : node -> node -> bool -> op -> str) : str :=
+  match decode_tree (S (List.length args)) args with
+  | Some (before, rest) =>
+    match decode_tree (S (List.length rest)) rest with
+    | Some (after, okf :: rest') =>
+      match decode_ops 2 rest' with
+      | o :: _ => k before after (tbool okf) o
+      | [] => lit "?op"
+      end
+    | _ => lit "?after"
+    end
+  | None => lit "?before"
+  end.
+
 Definition run_fs2 (name : str) (args : list str) : str :=
   let ops := decode_ops (S (List.length args)) args in
   if str_eqb name (lit "mem") then sep_by (lit " ") (run_history mem_run empty_dir ops)
   else if str_eqb name (lit "ref") then sep_by (lit " ") (ref_history (Some empty_dir) ops)
   else if str_eqb name (lit "agree_mem") then sep_by (lit " ") (agree_history empty_dir ops)
+  else if str_eqb name (lit "mem_preserved") then
+    sep_by (lit " ") (preserved_history empty_dir ops)
+  else if str_eqb name (lit "preserved") then
+    with_obs args (fun b a ok o => r_bool (preserved b a o ok))
+  else if str_eqb name (lit "refstep") then
+    (* reference step from a supplied tree: <tree> <call> *)
+    match decode_tree (S (List.length args)) args with
+    | Some (t, rest) =>
+      match decode_ops 2 rest with
+      | o :: _ => r_rstep (ref_run o t)
+      | [] => lit "?op"
+      end
+    | None => lit "?tree"
+    end
   else lit "?unknown".
